@@ -88,13 +88,29 @@ def run(ctx):
                         ctx.disagree('model.rel_ops.' + k, {**inp, 'impl': impl[k], 'model': m[k]})
         pending.clear()
 
-    for _ in range(ctx.budget(160, 4000)):
+    def loop_body(nv):
+        """relation of a loop body: sums (if/else) and compositions of 2-4 assignments over few variables,
+        the shape whose closure needs long walks (cycles through a heavy edge)"""
+        vs = names[:nv]
+        r = leaf(rng, vs, 2)
+        for _ in range(rng.randint(1, 3)):
+            nxt = leaf(rng, vs, 2)
+            r = (r + nxt) if rng.random() < 0.5 else (r * nxt)
+        return r
+
+    n_total = ctx.budget(260, 5000)
+    for it in range(n_total):
         if ctx.expired():
             break
         nidx = rng.randint(1, 3)
         try:
-            r1 = build(rng, names, nidx, rng.randint(0, 2))
-            r2 = build(rng, names, nidx, rng.randint(0, 2))
+            if it % 3 == 0:
+                nidx = 2
+                r1 = loop_body(rng.choice([2, 2, 3]))
+                r2 = loop_body(2)
+            else:
+                r1 = build(rng, names, nidx, rng.randint(0, 2))
+                r2 = build(rng, names, nidx, rng.randint(0, 2))
         except Exception as e:
             ctx.count('build_raised_' + type(e).__name__)
             continue
